@@ -32,6 +32,11 @@ GENERATORS = {
     "sklearn.model_selection.ParameterSampler": ["param_distributions", "n_iter", "random_state"],
     "sklearn.model_selection._search.ParameterSampler": ["param_distributions", "n_iter", "random_state"],
 }
+# members that must delegate to best_forecaster_ (DESIGN 3/C08-R4) even when an edit makes them stop mentioning it
+DESIGNED_MEMBERS = ("predict", "update", "update_predict", "update_predict_single", "transform", "inverse_transform", "score",
+                    "compute_pred_int", "get_fitted_params", "cutoff")
+# members through which the wrapped forecaster's state (cutoff) moves
+STATE_MOVERS = ("update", "update_predict_single")
 MIN_SEL = ("argmin", "idxmin")
 MAX_SEL = ("argmax", "idxmax")
 
@@ -152,6 +157,76 @@ def type_greater_is_better(ctx, repo):
     return all_ok and bool(ok) and n > 0
 
 
+def wrapper_signs(ctx, repo):
+    """What every metric wrapper's ``__call__`` returns relative to the metric function's value:
+    {class name: {g: +1 | -1}} for greater_is_better = g.  The direction declared by the metric must be applied
+    exactly once between the metric function and the selected index (R1), so a wrapper that flips the sign
+    changes what the tuner's ``ascending=`` has to be."""
+    mod = repo.module(CLASSES)
+    signs = {}
+    probe = 3.0
+    for c in sorted(repo.classes.values(), key=lambda k: k.qual):
+        if c.module is not mod or "__call__" not in c.methods:
+            continue
+        f = c.methods["__call__"]
+        it = Interp(repo)
+        r = it.run(mod, f, {}, cls=c, defcls=c)
+        loc = ctx.loc(mod, f)
+        name = "%s.__call__" % c.name
+        res = {}
+        why = None
+        if r.unsupported or not r.returns:
+            why = "not interpretable"
+        else:
+            for g in (True, False):
+                val = {attr(SELF, "greater_is_better"): g}
+                for _, t in r.returns:
+                    for x in subterms(t):
+                        if is_call(x) and x.a[0] == attr(SELF, "_func"):
+                            val[x] = probe
+                try:
+                    vals = set()
+                    pcs = [st.pc for st, _ in r.returns]
+                    from ._c07_prov import valuations
+                    for v, _free in valuations(pcs, val):
+                        for st, t in r.returns:
+                            if pc_holds(st.pc, v):
+                                vals.add(ceval(t, v))
+                    if vals == {probe}:
+                        res[g] = 1
+                    elif vals == {-probe}:
+                        res[g] = -1
+                    else:
+                        why = "returns %s for greater_is_better=%r" % (sorted(map(repr, vals)), g)
+                except Undef as u:
+                    why = "return value is not +/- the metric function's value: %s" % show(u.args[0] if u.args else "?")[:120]
+        if why is not None or len(res) != 2:
+            ctx.undecided("R1", name + ":value", why or "?", loc)
+            signs[c.name] = None
+        else:
+            desc = "the metric function's own value" if res == {True: 1, False: 1} else \
+                "%s the metric when greater_is_better, %s otherwise" % ("minus" if res[True] < 0 else "plus", "minus" if res[False] < 0 else "plus")
+            ctx.ok("R1", name + ":value", "returns " + desc, loc)
+            signs[c.name] = res
+    return signs
+
+
+def direction_wrong(picks_low, signs):
+    """``picks_low[g]``: the tuner selects the lowest *ranked* value for greater_is_better = g.  Combined with each wrapper's
+    sign the lowest *metric* must be selected iff not g.  Returns [(g, wrapper name, sign)] of the failing combinations."""
+    wrong = []
+    if not any(sg is not None for sg in signs.values()):
+        signs = {"<metric>": {True: 1, False: 1}}  # nothing known about the wrappers: the raw metric value is ranked
+    for w, sg in sorted(signs.items()):
+        if sg is None:
+            continue
+        for g in (True, False):
+            lowest_metric = picks_low[g] == (sg[g] == 1)
+            if lowest_metric != (not g):
+                wrong.append((g, w, sg[g]))
+    return wrong
+
+
 # ----------------------------------------------------------------------------- fit()
 class FitAnalysis:
     def __init__(self, repo, cls):
@@ -176,7 +251,7 @@ class FitAnalysis:
         return self.V.strip(t) == attr(SELF, "scoring")
 
 
-def check_fit(ctx, repo, out, cls, bool_typed, eval_score_key):
+def check_fit(ctx, repo, out, cls, bool_typed, eval_score_key, signs):
     A = FitAnalysis(repo, cls)
     scen = cls.name
     mod = A.mod
@@ -257,23 +332,43 @@ def check_fit(ctx, repo, out, cls, bool_typed, eval_score_key):
                             v = ceval(asc, {G: g})
                             rows.append((g, v))
                         wrong = [(g, v) for g, v in rows if bool(v) != (not g)]
+                        combined = direction_wrong({g: bool(v) for g, v in rows}, signs)
+                        flipped = [x for x in combined if x[2] != 1]
                         uses_invert = any(isinstance(x, T) and x.op == "unop" and x.a[0] == "Invert" for x in subterms(asc))
                         if uses_invert and not bool_typed:
                             verdict, detail = None, "`~` is applied to greater_is_better whose stores could not be typed as Python bool"
-                        elif wrong:
+                        elif flipped or (combined and not wrong):
+                            g, w, sg = (flipped or combined)[0]
+                            verdict = False
+                            detail = ("direction applied %s: %s.__call__ returns %s the metric for greater_is_better=%r and the tuner ranks with "
+                                      "ascending=%s (%r): the candidate with the %s metric value gets rank 1"
+                                      % ("twice" if sg != 1 else "wrongly", w, "minus" if sg < 0 else "plus", g, show(asc), dict(rows)[g],
+                                         "lowest" if g else "highest"))
+                            vkey = show(asc).replace(show(G), "g") + "*" + w
+                        elif wrong and combined:
                             g, v = wrong[0]
                             verdict = False
                             detail = ("ascending=%s evaluates to %r (%s) for greater_is_better=%r, expected %r: the %s candidate gets rank 1"
                                       % (show(asc), v, "truthy" if v else "falsy", g, (not g), "worst" if g else "worst"))
                             vkey = show(asc).replace(show(G), "g")
+                        elif wrong:
+                            verdict, detail = True, ("ascending=%s (table: %s) together with the sign the metric wrappers apply selects the best "
+                                                     "candidate: the direction is applied exactly once" % (show(asc), rows))
                         else:
                             verdict, detail = True, "ascending=%s is the Boolean negation of greater_is_better (table: %s)" % (show(asc), rows)
                     except Undef as u:
                         verdict, detail = None, "ascending expression not evaluable: %s" % show(u.args[0] if u.args else asc)
                 elif not gs:
                     if is_const(asc):
-                        verdict, detail, vkey = False, ("rank(ascending=%r) ignores greater_is_better: wrong candidate for metrics with "
-                                                        "greater_is_better=%r" % (cval(asc), bool(cval(asc)))), "const"
+                        combined = direction_wrong({True: bool(cval(asc)), False: bool(cval(asc))}, signs)
+                        if combined:
+                            g, w, sg = combined[0]
+                            verdict, detail, vkey = False, ("rank(ascending=%r) ignores greater_is_better while %s.__call__ returns %s the metric for "
+                                                            "greater_is_better=%r: the worst candidate gets rank 1"
+                                                            % (cval(asc), w, "minus" if sg < 0 else "plus", g)), "const"
+                        else:
+                            verdict, detail = True, ("rank(ascending=%r) and every metric wrapper returns a value whose lowest is best: the "
+                                                     "direction is applied once, inside the wrappers" % cval(asc))
                     else:
                         verdict, detail = None, "ascending=%s does not mention greater_is_better" % show(asc)
                 else:
@@ -300,13 +395,14 @@ def check_fit(ctx, repo, out, cls, bool_typed, eval_score_key):
                           "the selected column belongs to the table of per-candidate results",
                           "the selected column is taken from another table than the per-candidate results", loc_bi, vkey="table")
                 try:
-                    wrong = []
+                    picks = {}
                     for g in (True, False):
-                        pick = h1 if bool(ceval(test, {G: g})) else h2
-                        if (pick in MAX_SEL) != g:
-                            wrong.append((g, pick))
+                        picks[g] = (h1 if bool(ceval(test, {G: g})) else h2)
+                    wrong = direction_wrong({g: picks[g] in MIN_SEL for g in picks}, signs)
                     out.check(scen, not wrong, "R1", "%s.fit:rank-direction" % D, "idxmax when greater is better, idxmin otherwise",
-                              "greater_is_better=%r selects by %s" % wrong[0] if wrong else "", loc_bi, vkey="ifexp")
+                              "greater_is_better=%r selects by %s while %s.__call__ returns %s the metric"
+                              % (wrong[0][0], picks[wrong[0][0]], wrong[0][1], "minus" if wrong[0][2] < 0 else "plus") if wrong else "",
+                              loc_bi, vkey="ifexp" + ("*" + wrong[0][1] if wrong and wrong[0][2] != 1 else ""))
                     out.check(scen, A.is_scoring(G.a[0]), "R1", "%s.fit:rank-direction:metric" % D, "direction is read from the checked self.scoring",
                               "direction is read from %s" % show(G.a[0]), loc_bi, vkey="other-metric")
                     out.add(scen, "ok", "R1", "%s.fit:best-index-selects-rank-1" % D, "direct arg-extremum of the score column", loc_bi)
@@ -632,6 +728,33 @@ def check_guard_method(ctx, repo, out, cls):
     return params[0]
 
 
+def stale_after(repo, cls, copy_attr, what):
+    """Names of the state-moving members that delegate to best_forecaster_ but do not afterwards store
+    ``best_forecaster_.<what>`` into ``self.<copy_attr>`` on every path (None if not interpretable)."""
+    out_ = []
+    for m in STATE_MOVERS:
+        hit = repo.lookup_method(cls, m)
+        if hit is None or hit[0].module.relpath != TUNE:
+            continue
+        k, f = hit
+
+        def classify(ev):
+            if ev.kind == "call" and isinstance(ev.callee, T) and ev.callee.op == "attr" and ev.callee.a[0] == BF:
+                return ("moved",)
+            if ev.kind == "store" and ev.attr == copy_attr and ev.term == attr(BF, what) and "moved" in ev.must:
+                return ("refreshed",)
+            return ()
+
+        it = Interp(repo, classify=classify)
+        r = it.run(k.module, f, {}, cls=cls, defcls=k)
+        if r.unsupported:
+            return None
+        rets = [e for e in r.events if e.kind == "return" and not e.stack]
+        if any("moved" in e.must and "refreshed" not in e.must for e in rets):
+            out_.append(m)
+    return out_
+
+
 def check_delegators(ctx, repo, out, cls, callsig, guard_param):
     base = repo.cls(BASE + ":BaseForecaster")
     scen = cls.name
@@ -644,7 +767,7 @@ def check_delegators(ctx, repo, out, cls, callsig, guard_param):
             if nm in ("fit", "check_is_fitted", "__init__") or any(m[0] == nm for m in members):
                 continue
             reads = [n for n in astq.self_attr_reads(f) if n.attr == "best_forecaster_"]
-            if reads:
+            if reads or nm in DESIGNED_MEMBERS:
                 members.append((nm, k, f))
     ctx.count("delegating members", len(members))
     for nm, k, f in members:
@@ -693,8 +816,23 @@ def check_delegators(ctx, repo, out, cls, callsig, guard_param):
         if not dels:
             # attribute delegation (property)
             good = bool(rets) and all(isinstance(t, T) and t.op == "attr" and t.a[0] == BF and t.a[1] == nm for _, t in rets)
-            out.check(scen, True if good else None, "R4", tag + ":delegate", "returns best_forecaster_.%s" % nm,
-                      "%s does not return best_forecaster_.%s" % (nm, nm), loc)
+            cached = [t for _, t in rets if isinstance(t, T) and t.op == "attr" and t.a[0] == SELF and t.a[1] != "best_forecaster_"]
+            if good:
+                out.add(scen, "ok", "R4", tag + ":delegate", "returns best_forecaster_.%s read at call time" % nm, loc)
+            elif cached and len(cached) == len(rets):
+                # a copy kept on the tuner is right only if every member that moves the delegate's state refreshes it
+                stale = stale_after(repo, cls, cached[0].a[1], nm)
+                if stale is None:
+                    out.add(scen, "undecided", "R4", tag + ":delegate", "%s returns self.%s; the state-moving members are not interpretable"
+                            % (nm, cached[0].a[1]), loc)
+                else:
+                    out.check(scen, not stale, "R4", tag + ":delegate",
+                              "returns self.%s, which every state-moving member refreshes from best_forecaster_.%s" % (cached[0].a[1], nm),
+                              "%s returns the copy self.%s instead of best_forecaster_.%s; %s move(s) the delegate's %s without refreshing the copy, "
+                              "so the tuner reports a stale %s after it" % (nm, cached[0].a[1], nm, ", ".join(stale), nm, nm), loc, vkey="cached-copy")
+            else:
+                out.add(scen, "undecided", "R4", tag + ":delegate", "%s does not return best_forecaster_.%s: %s"
+                        % (nm, nm, ", ".join(show(t) for _, t in rets)[:160]), loc)
             continue
         same = [e for e in dels if e.callee.a[1] == nm]
         out.check(scen, bool(same), "R4", tag + ":delegate", "delegates to best_forecaster_.%s" % nm,
@@ -799,6 +937,7 @@ def run(ctx):
     if not concrete:
         raise AnalysisError("no concrete tuner (subclass of BaseGridSearch defining _run_search) found")
     bool_typed = type_greater_is_better(ctx, repo)
+    signs = wrapper_signs(ctx, repo)
     callsig = metric_call_signature(ctx, repo, report=False)
     # the score column evaluate() writes
     eval_key = None
@@ -813,11 +952,11 @@ def run(ctx):
                         eval_key = (pre, nm.a[1])
     out = Merged(ctx)
     for cls in concrete:
-        check_fit(ctx, repo, out, cls, bool_typed, eval_key)
+        check_fit(ctx, repo, out, cls, bool_typed, eval_key, signs)
         gp = check_guard_method(ctx, repo, out, cls)
         check_delegators(ctx, repo, out, cls, callsig, gp)
     out.flush()
-    ctx.floor("R1", 30)
+    ctx.floor("R1", 36)
     ctx.floor("R2", 8)
     ctx.floor("R3", 30)
     ctx.floor("R4", 70)
